@@ -69,6 +69,7 @@ def run(ck: Checker, prog: Program, tier: str):
         ck.guard(c20._read_only, ck, prog)
     with ck.borrow(c15, "C19.R3+"):
         ck.guard(c15.run, ck, prog, tier)
+    ck.guard(_always_writes, ck, prog, w)
     # ---------------------------------------------------------------- R1
     shared = [e for e in s.effects if (e.origin[0] == "P" and e.origin[1] in (1, 2, 3)) or e.origin[0] == "G"]
     if not shared:
@@ -258,6 +259,34 @@ def run(ck: Checker, prog: Program, tier: str):
 PATH_VALIDATION_ONLY = {"exists", "file_okay", "dir_okay", "readable", "writable", "executable", "allow_dash"}
 #: keyword arguments that rewrite the string (absolute path, resolved links, another type)
 PATH_REWRITING = {"resolve_path", "path_type"}
+
+
+def _always_writes(ck: Checker, prog: Program, w):
+    """Every path through the worker that does not fail writes the result - unless the user asked for no file.  A shortcut that
+    returns early because of what the output directory already holds (an "up to date" test) leaves a result that other settings,
+    options or another version produced."""
+    from ..pathtable import PathTable, literals, same_rel
+    import sympy as sp
+    leaves = PathTable(prog, w.module, structured=True).leaves([st for st in w.node.body if not (isinstance(st, ast.Expr) and isinstance(st.value, ast.Constant))])
+    NOFILE = sp.Eq(sp.Function("truth")(sp.Function("getitem")(sp.Symbol(w.params[3], real=True), sp.Symbol("'no_file'"))), sp.true, evaluate=False)
+    n = bad = 0
+    why = ""
+    for l in leaves:
+        if l.exit == "raise":
+            continue
+        n += 1
+        wrote = any(e[0] == "call" and e[1].split(".")[-1] == "write_hvsr_object_to_file" for e in l.events)
+        asked_not_to = any(same_rel(x, NOFILE) for x in literals(l))
+        if not wrote and not asked_not_to:
+            bad += 1
+            why = why or "; ".join(str(c)[:60] for c, _t in l.conds[:2])
+    if n == 0:
+        raise AnalysisError(f"{w.qualname}: no path through the worker")
+    if bad == 0:
+        ck.ok("C19.R2a", w.qualname, "the result is written on every path unless `no_file` was requested", detail=f"{n} path(s)")
+    else:
+        ck.violation("C19.R2a", w.qualname, "result written", f"{bad} of {n} paths through the worker end without writing the result although a file was requested "
+                     f"(taken when {why or 'unconditionally'}): the output then does not depend on this run's settings and options alone", loc=w.loc())
 
 
 def _file_argument(ck: Checker, prog: Program, cli):
